@@ -31,15 +31,13 @@ theorem load_atomic_old_code_fails :
     answers (startApp 1 wEnv2.blocked ⟨3, 2, 0, [2, 1], []⟩ wState).1 = [(0, 1)] ∧
     (changeTo w2 wEnv2 wState).2 = .errStart ∧ obs (changeTo w2 wEnv2 wState).1 = obs wState := by decide
 
-/-! ### the process-wide default storage (certmagic.Default.Storage) — finding F21
+/-! ### the process-wide default storage (certmagic.Default.Storage) — former finding F21
 
-Full statement (kept visible):
-  ∀ s c e, (changeTo c e s).2.accepted = false → (changeTo c e s).1.dstor = s.dstor
-  ∀ s c e, (validate c e s).1.dstor = s.dstor
-provisionContext makes the new configuration's storage the process default BEFORE the apps are
-provisioned. Only its own deferred rollback puts it back, and only `if currentCtx.cfg != nil`; the
-later failure paths of run() (admin routers, Start, post-start) and Validate() do not.
-Protocol lines (Driver.witnessLines), replayed on the real code on every run. -/
+BEFORE fix e4caa40 only provisionContext's own deferred rollback put the default storage back, and
+only `if currentCtx.cfg != nil`; the later failure paths of run() and Validate() did not. The old
+code is kept in Lifecycle.lean (`restoreStorageOld`, `provisionContextOld`, `runOld`,
+`validateOld`); with the code as it is now `default_storage_after_rejected` and
+`default_storage_after_validate` hold at full strength. Former witness lines: corpus/C01. -/
 
 /-- probe app 0 and storage module 1; the app's Provision fails -/
 def wSt1 : Cfg := ⟨0, [], [⟨0, 1, 3, [], []⟩], ⟨0, 1⟩⟩
@@ -50,19 +48,19 @@ def wSt2 : Cfg := ⟨0, [], [⟨0, 2, 5, [], []⟩], ⟨0, 1⟩⟩
 /-- storage module 2, healthy (to be validated) -/
 def wSt3 : Cfg := ⟨0, [], [⟨0, 3, 0, [], []⟩], ⟨0, 2⟩⟩
 def wEnvS : Env := ⟨true, false, 0, [], [0], [0]⟩
+/-- the state in which wSt0 runs -/
+def wRun0 : State := runOps State.init [.load wSt0 wEnvS]
 
-/-- the negation of the full statement, three ways: (a) the very first load is rejected while
-    provisioning an app — nothing is current, so nothing is restored; (b) over a running config, a
-    load rejected at Start; (c) over a running config, a successful Validate. In each case the
-    default storage is the rejected / validated configuration's. -/
-theorem default_storage_full_fails :
-    ((changeTo wSt1 wEnvS State.init).2 = .errProvision ∧ (changeTo wSt1 wEnvS State.init).1.dstor = 1 ∧
-      State.init.dstor = 0) ∧
-    ((runOps State.init [.load wSt0 wEnvS]).dstor = 0 ∧
-      (changeTo wSt2 wEnvS (runOps State.init [.load wSt0 wEnvS])).2 = .errStart ∧
-      (changeTo wSt2 wEnvS (runOps State.init [.load wSt0 wEnvS])).1.dstor = 1) ∧
-    ((validate wSt3 wEnvS (runOps State.init [.load wSt0 wEnvS])).2 = .ok ∧
-      (validate wSt3 wEnvS (runOps State.init [.load wSt0 wEnvS])).1.dstor = 2 ∧
-      (validate wSt3 wEnvS (runOps State.init [.load wSt0 wEnvS])).1.rawJSON = some wSt0) := by decide
+/-- the OLD code left the default storage at a configuration that is not running, three ways —
+    and the code as it is now does not: (a) the very first load rejected while provisioning an app
+    (old: storage 1; now: caddy's default 0); (b) over a running config (storage 0), a load
+    rejected at Start (old: 1; now: 0); (c) over the same, a successful Validate (old: 2; now 0). -/
+theorem default_storage_old_code_fails :
+    ((runOld 0 wSt1 wEnvS State.init).2.2 = .errProvision ∧ (runOld 0 wSt1 wEnvS State.init).1.dstor = 1 ∧
+      (run 0 wSt1 wEnvS State.init).1.dstor = 0) ∧
+    (storOf wRun0.cur = 0 ∧ (runOld wRun0.next wSt2 wEnvS wRun0).2.2 = .errStart ∧
+      (runOld wRun0.next wSt2 wEnvS wRun0).1.dstor = 1 ∧ (run wRun0.next wSt2 wEnvS wRun0).1.dstor = 0) ∧
+    ((validateOld wSt3 wEnvS wRun0).2 = .ok ∧ (validateOld wSt3 wEnvS wRun0).1.dstor = 2 ∧
+      (validate wSt3 wEnvS wRun0).1.dstor = 0) := by decide
 
 end CaddyModel.C01
